@@ -9,7 +9,9 @@ Attribute keys are small ints, attribute values tagged int tuples.
 import numpy as np
 
 # 5-7: attribute names that are also parameter names of the adding methods (set only through the setters)
-ATTR_KEYS = {1: "color", 2: "wt", 3: "mult", 4: "weight", 5: "idx", 6: "members", 7: "node", 9: "label"}
+# 8: a name that is also a parameter of the class constructors; 10: a name that is not a string
+ATTR_KEYS = {1: "color", 2: "wt", 3: "mult", 4: "weight", 5: "idx", 6: "members", 7: "node", 8: "incoming_data", 9: "label",
+             10: ("layer", 1)}
 ATTR_KEYS_INV = {v: k for k, v in ATTR_KEYS.items()}
 
 # labels with characters that str.splitlines / str.split() treat as separators but "\n"-based line
